@@ -28,7 +28,7 @@ def bounds():
 def gen_script(r, tier, idx):
     from vlib.man import Phase
 
-    kind = r.choice(["reset-in-connect", "reset-in-connect", "blackout-connected", "lossy", "rferr", "blackout-at-start", "mixed", "reset-anytime", "set-info", "interface-down", "rferr-long"])
+    kind = r.choice(["reset-in-connect", "reset-in-connect", "blackout-connected", "lossy", "rferr", "blackout-at-start", "mixed", "reset-anytime", "set-info", "interface-down", "rferr-long", "not-found-then-reset"])
     phases, actions = [], []
     if kind == "reset-in-connect":
         # a reset at a 100 ms step of the first connection attempt
@@ -46,6 +46,12 @@ def gen_script(r, tier, idx):
     elif kind == "rferr-long":
         # long enough for the too-many-RF-errors escalation (more than 50 on one connection)
         phases = [Phase("healthy", r.choice([6, 30])), Phase("rferr", r.choice([400, 3600]))]
+    elif kind == "not-found-then-reset":
+        # both discovery windows fall into the blackout (terminal "spa not found"); the user then
+        # presses reconnect / re-enters the spa details on a healthy network
+        d = r.choice([26, 40, 90])
+        phases = [Phase("blackout", d)]
+        actions = [(d + r.choice([0.5, 5, 30]), r.choice(["reset", "set-info"]))]
     elif kind == "blackout-at-start":
         phases = [Phase("blackout", r.choice([0.3, 2, 8, 25]))]
     elif kind == "mixed":
@@ -134,6 +140,7 @@ def scenario(sh: Shard, seed, idx, tier):
                     await asyncio.sleep(0.2)
                 await asyncio.sleep(1.0)
                 out["final_state"] = man._spa_state.name
+                out["t_final"] = mw.w.now
                 out["spa_none"] = man._spa is None
                 out["desc"] = man._spa_descriptors is not None
                 f = man._facade
@@ -174,7 +181,8 @@ def scenario(sh: Shard, seed, idx, tier):
         # ---- recovery
         elif out["t_connected"] is None:
             fs = out["final_state"]
-            if fs == "ERROR_SPA_NOT_FOUND":
+            user_reset_when_healthy = any(x["api"] == "async_reset" and str(x.get("task", "")).startswith("Task-") and mw.healthy_since <= x["t0"] < out.get("t_final", 0) - 1.0 and x.get("t1") is not None for x in api)
+            if fs == "ERROR_SPA_NOT_FOUND" and not user_reset_when_healthy:
                 key = "C09:terminal:ERROR_SPA_NOT_FOUND"
             elif interleaved:
                 key = "C09:stranded:pump-interleaved-reset"
@@ -237,7 +245,7 @@ def main(tier, seed):
     run.extra["bounds_virtual_seconds"] = {"B_up": up, "B_down": down}
     run.need(run.counters.get("recoveries", 0) > 60, "too few recoveries observed")
     run.need(run.counters.get("long_outages_from_connected", 0) >= 1 or tier == "quick", "no long outage from CONNECTED")
-    for k in ("reset-in-connect", "blackout-connected", "lossy", "rferr", "blackout-at-start", "mixed", "interface-down", "rferr-long"):
+    for k in ("reset-in-connect", "blackout-connected", "lossy", "rferr", "blackout-at-start", "mixed", "interface-down", "rferr-long", "not-found-then-reset"):
         run.need(k in run.sets.get("script_kinds", set()), f"script kind {k} not exercised")
     return run.finish(
         rule="fault scripts (reset / set-spa-info at a 100 ms step of the first connection attempt - thorough: every step 0..5.9 s -, blackout while connected from 0.5 to 400 s, lossy 20-90 %, RF-error periods (up to 3600 s: past the too-many-RF-errors escalation), interface-down periods (every send fails with an OS error reported through error_received), blackout at start, mixed phase sequences with resets) followed by a healthy network, silent spa-side changes during outages, handlers none/tick/seconds, regimes B/J; one evaluation = one script; distinct = distinct scripts",
